@@ -57,7 +57,7 @@ def cond_str(c: List[Any]) -> str:
         return ("not " if c[1] else "") + f"minimum({c[2]}, [{', '.join(sorted(c[3]))}])"
     if t == "cds":
         inner = " or ".join(cond_str(s) for s in c[2])
-        if len(c[2]) == 1 and c[2][0][0] == "group" and not inner.startswith("("):   # fixes/D26
+        if len(c[2]) == 1 and c[2][0][0] == "group" and not inner.startswith("("):   # fixes/D43
             inner = "(" + inner + ")"
         return ("not " if c[1] else "") + "cds(" + inner + ")"
     if t == "group":
